@@ -311,11 +311,14 @@ def history_layer(ctx):
 
 
 def _unit(unit):
-    ty, k, si, split = unit
+    ty, k, si, split = unit[:4]
+    stripe = unit[4] if len(unit) > 4 else None
     django_h.setup()
     acc = Acc()
     en = enum()
     for i, term in enumerate(en.apply(en.sigs[si], k, only_split=split)):
+        if stripe and i % stripe[1] != stripe[0]:
+            continue
         check(acc, "typed", term, "scalar")
         if i == 0:
             acc.sample({"filter": to_odata(term)}, cap=1)
@@ -388,7 +391,7 @@ def run(ctx):
                 en.terms(ty, j)
         if k == 0:
             continue
-        ctx.pmap(_unit, [(C18.B, k, si, split) for si, split in en.work_units(C18.B, k)])
+        ctx.pmap(_unit, [(C18.B, k, si, split, (j, 4)) for si, split in en.work_units(C18.B, k) for j in range(4)])
     ctx.layer("typed-matrix", k_max=kmax, terms=int(ctx.counts["states"]), backends=BACKENDS, exhaustive=True)
     before = ctx.counts["states"]
     for kind, t in extra_terms():
